@@ -1,5 +1,5 @@
 """Table rules shared by C03 / C06 / C07: label tables and the smart-preset tier decision trees."""
-import itertools, re
+import itertools, re, re
 import mir
 
 SANITIZE = "crate::utils::sanitize::Sanitizer::sanitize"
@@ -74,31 +74,43 @@ def label_tables(F, rep, rule):
 ATOMS = ("dirty", "distance", "pre_release", "post")
 
 def tier_tree(F, fn):
-    """{assignment tuple over ATOMS -> (callee short, const args)} by path enumeration"""
+    """{assignment tuple over ATOMS -> (callee short, const args)} by path enumeration over the function with its local
+    helpers spliced in (a `SmartTier::select(vars)` style helper is seen through); infeasible paths are dropped."""
     rows = []
-    for p in mir.enum_paths(fn, limit=5000):
-        if fn.blocks[p[-1]]["t"][0] != "ret": continue
-        sp = mir.SymPath(fn, p)
+    fn = mir.inlined(F, fn, depth=3, ok=lambda F_, caller, cp, g: g is not None and g.kind != "closure" and cp.startswith("crate::schema::") and not re.search(r"_schema$", cp))
+    def presence(e):
+        return e[0] == "call" and str(e[1]).rsplit("::", 1)[-1] in ("is_some", "is_none") or e[0] == "discr"
+    def defaulted(e, dflt):
+        return e[0] == "call" and str(e[1]).endswith("::unwrap_or") and len(e[2]) == 2 and e[2][1] == ("const", dflt) or (e[0] == "call" and str(e[1]).endswith("::unwrap_or_default") and dflt in (0, False))
+    try:
+        sps = mir.sym_paths(fn, limit=20000)
+    except mir.TooManyPaths:
+        return None, "too many paths"
+    for sp in sps:
         conds = {}
-        for d, (rel, vals), b in sp.conds:
+        for d, truth, b in sp.facts():
+            if not isinstance(truth, bool):
+                rel, vals = truth
+                if d[0] == "discr" and d[1][0] == "agg": continue        # a value built on this path (already used for feasibility)
+                if d[0] == "discr" and any(x in mir.show(d[1]) for x in (".pre_release", ".post")):
+                    # match on the Option itself: presence test
+                    atom = "pre_release" if ".pre_release" in mir.show(d[1]) else "post"
+                    tr = (rel == "eq" and tuple(vals) == (1,)) or (rel == "ne" and 0 in vals and 1 not in vals)
+                    if atom in conds and conds[atom] != tr: conds = None; break
+                    conds[atom] = tr; continue
+                return None, "unrecognised condition %s" % mir.show(d)[:60]
             txt = mir.show(d)
-            truth = not ((rel == "eq" and 0 in vals) or (rel == "ne" and 0 not in vals))
             atom = None
-            if "vars.dirty" in txt or ".dirty" in txt: atom = "dirty"
+            if ".dirty" in txt: atom = "dirty"
             elif ".distance" in txt: atom = "distance"
             elif ".pre_release" in txt: atom = "pre_release"
             elif ".post" in txt: atom = "post"
             if atom is None: return None, "unrecognised condition %s" % txt[:60]
-            if atom == "distance" and not (d[0] == "bin" and d[1] == "Gt"): return None, "distance tested with %s" % txt[:40]
             # the kind of test per field: presence for pre_release / post (a set value, even 0, is printed by the renderers, so the
             # tier must include it), value-with-default for dirty / distance (Some(false) and Some(0) mean "nothing to show")
-            def presence(e):
-                return e[0] == "call" and str(e[1]).rsplit("::", 1)[-1] in ("is_some", "is_none") or e[0] == "discr"
-            def defaulted(e, dflt):
-                return e[0] == "call" and str(e[1]).endswith("::unwrap_or") and len(e[2]) == 2 and e[2][1] == ("const", dflt) or (e[0] == "call" and str(e[1]).endswith("::unwrap_or_default") and dflt in (0, False))
             if atom in ("pre_release", "post") and not presence(d): return None, "ATOM-KIND: %s is tested by value (%s), not by presence: a set %s that fails the value test is left out of the tier" % (atom, txt[:60], atom)
             if atom == "dirty" and not defaulted(d, False): return None, "ATOM-KIND: dirty is tested as %s, expected unwrap_or(false)" % txt[:60]
-            if atom == "distance" and not (defaulted(d[2], 0) and d[3] == ("const", 0)): return None, "ATOM-KIND: distance is tested as %s, expected unwrap_or(0) > 0" % txt[:60]
+            if atom == "distance" and not (d[0] == "bin" and d[1] == "Gt" and defaulted(d[2], 0) and d[3] == ("const", 0)): return None, "ATOM-KIND: distance is tested as %s, expected unwrap_or(0) > 0" % txt[:60]
             if atom in ("pre_release", "post") and d[0] == "call" and str(d[1]).endswith("is_none"): truth = not truth
             if atom in conds and conds[atom] != truth: conds = None; break      # the same pure test with both outcomes: infeasible path
             conds[atom] = truth
